@@ -130,14 +130,54 @@ def pathJoin (base rel : Str) : Str :=
 
 structure Base where
   remote : Bool
-  /-- local: the resolved absolute directory; remote: the URL with its trailing `/` -/
+  /-- local: the resolved absolute directory; remote: the URL `load_external_modules` hands to
+      `dict2obj`, i.e. the written URL after `normRemote` -/
   url : Str
   deriving Repr
+
+/-! ### Remote locations: `re.match("https?://", url)`, the trailing-slash normalisation, `urljoin` -/
+
+/-- `re.match("https?://", url)`: the matched prefix and what follows it -/
+def stripHttp : Str → Option (Str × Str)
+  | 'h' :: 't' :: 't' :: 'p' :: ':' :: '/' :: '/' :: r => some (['h', 't', 't', 'p', ':', '/', '/'], r)
+  | 'h' :: 't' :: 't' :: 'p' :: 's' :: ':' :: '/' :: '/' :: r => some (['h', 't', 't', 'p', 's', ':', '/', '/'], r)
+  | _ => none
+
+def isRemote (u : Str) : Bool := (stripHttp u).isSome
+
+/-- `url[-1] == "/"` -/
+def endsWithSlash (u : Str) : Bool := u.getLast? == some '/'
+
+/-- `if url[-1] != "/": url = url + "/"` (the written URL of a remote project is not empty: it
+    matched `https?://`) -/
+def normRemote (u : Str) : Str := if endsWithSlash u then u else u ++ ['/']
+
+/-- everything up to and including the last `/` (nothing if there is none) -/
+def keepDir (s : Str) : Str := (s.reverse.dropWhile (fun c => c != '/')).reverse
+
+/-- The directory part of a hierarchical URL `http(s)://authority[/path]` (no query, no fragment):
+    what RFC 3986 merging keeps of the base - the path up to its last `/`; an empty path counts as `/`. -/
+def urlDir (base : Str) : Str :=
+  match stripHttp base with
+  | some (pre, rest) => if rest.contains '/' then pre ++ keepDir rest else base ++ ['/']
+  | none => keepDir base
+
+/-- `urljoin(base, rel)` for such a base and a *simple* relative reference (no scheme, no leading `/`,
+    no dot segments, no empty segments - what `get_url` produces, and `modules.json`). -/
+def urljoinSimple (base rel : Str) : Str := urlDir base ++ rel
+
+def kModulesJson : Str := ['m', 'o', 'd', 'u', 'l', 'e', 's', '.', 'j', 's', 'o', 'n']
+
+/-- the base `load_external_modules` uses for a remote project written as `u` in `external:` -/
+def remoteBase (u : Str) : Base := { remote := true, url := normRemote u }
+
+/-- the URL it fetches the description from: `urljoin(url, "modules.json")` after the normalisation -/
+def indexUrl (u : Str) : Str := urljoinSimple (normRemote u) kModulesJson
 
 /-- `url / rel` (local) or `urljoin(url, rel)` (remote; modelled for *simple*
     relative references only: no scheme, no leading `/`, no dot segments). -/
 def rebase (b : Base) (rel : Str) : Str :=
-  if b.remote then b.url ++ rel else pathJoin b.url rel
+  if b.remote then urljoinSimple b.url rel else pathJoin b.url rel
 
 /-! ## The importing side -/
 
